@@ -13,12 +13,26 @@ static FILE *trace_out;
 static int prev_token;
 static int ntok;
 
+/* The trace records where in the file each token begins and ends and in which mode the lexer was (pattern / scalar expected): that
+ * needs the lexer's own variables (`yyfh`, `pflag`, `sflag`).  When they are not there under these names (a rewrite of how the lexer
+ * reads its input), vlib.Scratch.unit_harness builds with -DHARNESS_NO_STATICS: the trace then carries -1 for offsets and modes - the
+ * token sequence, the values and the diagnostics per token are still there, and `conf` is unaffected. */
+#ifndef HARNESS_NO_STATICS
+#define LEX_OFFSET()	ftell(yyfh)
+#define LEX_PFLAG()	pflag
+#define LEX_SFLAG()	sflag
+#else
+#define LEX_OFFSET()	(-1L)
+#define LEX_PFLAG()	(-1)
+#define LEX_SFLAG()	(-1)
+#endif
+
 static int traced_yylex(void) {
-	long off = ftell(yyfh);
-	int pf = pflag, sf = sflag, am = prev_token == MACRO;
+	long off = LEX_OFFSET();
+	int pf = LEX_PFLAG(), sf = LEX_SFLAG(), am = prev_token == MACRO;
 	int errs = parse_errors;
 	int tok = yylex();
-	long after = ftell(yyfh);
+	long after = LEX_OFFSET();
 	if (ntok++ < 4000 && trace_out != NULL) {
 		fprintf(trace_out, "%ld %d %d %d > ", off, pf, sf, am);
 		switch (tok) {
